@@ -674,7 +674,7 @@ class _NoHooks:
         return lambda *a, **k: None
 
 
-SCALARS = [[2.0, 0.0], [-0.5, 0.0], [0.3, 0.4], [0.0, 1.0], [-1.0, 0.0], [1e-2, 0.0], [7.0, -3.0]]
+SCALARS = [[2.0, 0.0], [-0.5, 0.0], [0.3, 0.4], [0.0, 1.0], [-1.0, 0.0], [1e-2, 0.0], [7.0, -3.0], [1.0, 0.0]]
 
 
 class TInterp:
